@@ -8,5 +8,6 @@ cd spec
 for m in *.tla; do
   tla-sany "$m" > /dev/null || { echo "SANY failed on $m"; exit 1; }
 done
+cd ..
 python3 selftest/word64.py 1200 || { echo "Word64 conformance failed"; exit 1; }
 echo "setup ok"
